@@ -48,7 +48,30 @@ def m1(ctx):
         if isinstance(tg, ast.Tuple) and len(tg.elts) == 2 and isinstance(tg.elts[1], ast.Name):
             rvar = tg.elts[1].id
     if rvar is None:
+        # the pair is bound some other way (e.g. by a spliced-in generator): the resource variable is the one the
+        # responses are conditioned on
+        cands = {}
+        for y in ys:
+            for t, pol in cfg.required_conditions(y):
+                if isinstance(t, ast.Compare) and len(t.ops) == 1 and isinstance(t.left, ast.Name) and isinstance(t.comparators[0], ast.Constant) \
+                        and t.comparators[0].value is None:
+                    cands[t.left.id] = cands.get(t.left.id, 0) + 1
+        if cands:
+            rvar = max(cands, key=cands.get)
+    if rvar is None or not mg_loops:
         raise AnalysisError("MultiGetReporter.report: `for href, resource in resources_by_hrefs(...)` not found")
+    # every response is for a pair that resources_by_hrefs produced (it answers each distinct href once)
+    for y in ys:
+        st0 = y.ast.value.value
+        if not (isinstance(st0, ast.Call) and st0.args):
+            continue
+        ho = origins(du, y, st0.args[0])
+        paired = bool(ho) and all(o.kind == "elem" and o.node in mg_loops and tuple(o.path) == (0,) for o in ho)
+        obs.append(ctx.ob(paired, fi.qualname, where(fi, y), "response href is one resources_by_hrefs() produced",
+                          "href <- for href, resource in resources_by_hrefs(hrefs)",
+                          "a response is produced for `%s`, which does not come out of resources_by_hrefs(): that function answers every "
+                          "distinct href once, a second source of (href, resource) pairs answers repeated or differently spelled hrefs twice"
+                          % src(st0.args[0])))
     # the data call: get_properties_with_data(self.data_property, href, <that resource>, ...)
     data_calls_ok = []
     for n_ in cfg.nodes:
